@@ -1187,6 +1187,13 @@ class Builtins:
 
     # --------------------------------------------------- methods of data values
     def method(self, it, obj, name, args, kwargs, node, write_back):
+        w = self.world
+        if isinstance(obj, SV) and obj.ty is None and vals.tag_of(it.refine(obj.t)) in (None, 'ObjV'):
+            # an object whose class is fixed by the path condition: its own method (e.g. datatype.copy()), not the container method
+            for cname, info in w.classes.items():
+                if (f'iface::{cname}.{name}' in w.contracts or f'{cname}.{name}' in w.contracts) \
+                        and not it.feasible(z3.Not(z3.And(V.is_ObjV(obj.t), it.cids.sub(CLSOF(V.oid(obj.t)), cname)))):
+                    return w.calls.call_method(it, SV(it.refine(obj.t), cname, obj.src), cname, name, args, kwargs, node)
         m = getattr(self, 'dm_' + name, None)
         if m is None:
             raise Unsupported(f'method .{name} of data value')
